@@ -313,6 +313,9 @@ type Type struct {
 	Type            []*Type    `yang:"type"` // len > 1 only when Name is "union"
 
 	YangType *YangType
+	// resolveErrs are the errors found when YangType was resolved; they
+	// are reported again whenever the type is resolved again.
+	resolveErrs []error
 }
 
 func (Type) Kind() string             { return "type" }
